@@ -16,6 +16,13 @@ Definition cog_any_geom (geometry : R) : Prop := geom123 geometry.
 Definition cog_23_geom (geometry : R) : Prop := geom23 geometry.
 (* Cog13: gamma = 1 excluded ("gamma cannot be 1") *)
 Definition cog13_doc_ok (geometry gamma : R) : Prop := geom123 geometry /\ gamma <> 1.
+(* Cog14: "2 + alpha - 2 (beta + 4) must be nonzero"; "no real solution: b / (k - b) must be positive" with
+   b = (k - 1 - alpha k) / (2 + alpha - 2 (beta + 4)) as in the class documentation (the temperature amplitude T0 is the real
+   power of a quantity with the sign of b / (k - b); planar geometry gives -1) *)
+Definition cog14_b (geometry alpha beta : R) : R := (geometry - 1 - 1 - alpha * (geometry - 1)) / (2 + alpha - 2 * (beta + 4)).
+Definition cog14_doc_ok (geometry alpha beta : R) : Prop :=
+  geom123 geometry /\ 2 + alpha - 2 * (beta + 4) <> 0 /\
+  cog14_b geometry alpha beta <> geometry - 1 /\ 0 < cog14_b geometry alpha beta / (geometry - 1 - cog14_b geometry alpha beta).
 (* Cog16: geometry 2/3 and b <> k *)
 Definition cog16_doc_ok (geometry b : R) : Prop := geom23 geometry /\ geometry - 1 <> b.
 (* Cog18: alpha <> 0 *)
